@@ -1,3 +1,281 @@
 package main
 
-func liveSends(n int) {}
+import (
+	"context"
+	"encoding/binary"
+	"errors"
+	"fmt"
+	"io"
+	"net"
+	"sync"
+	"time"
+
+	"github.com/arloliu/go-secs/v2/hsms"
+	"github.com/arloliu/go-secs/v2/hsmsss"
+	"github.com/arloliu/go-secs/v2/logger"
+	"github.com/arloliu/go-secs/v2/secs2"
+
+	"verifharness/vh"
+)
+
+type nopLogger struct{}
+
+func (nopLogger) Debug(string, ...any)        {}
+func (nopLogger) Info(string, ...any)         {}
+func (nopLogger) Warn(string, ...any)         {}
+func (nopLogger) Error(string, ...any)        {}
+func (nopLogger) Fatal(string, ...any)        {}
+func (l nopLogger) With(...any) logger.Logger { return l }
+func (nopLogger) Level() logger.LogLevel      { return logger.FatalLevel }
+func (nopLogger) SetLevel(logger.LogLevel)    {}
+
+// peer is a scripted HSMS entity on the other end of a net.Pipe: it accepts Select, answers
+// Linktest, answers every W-bit primary with an empty secondary and RECORDS every data frame.
+type peer struct {
+	conn net.Conn
+	mu   sync.Mutex
+	data [][]byte // header+body of every data frame seen
+	out  chan []byte
+	done chan struct{}
+}
+
+const markerStream, markerFunction = 99, 97
+
+func newPeer(conn net.Conn) *peer {
+	p := &peer{conn: conn, out: make(chan []byte, 256), done: make(chan struct{})}
+	go p.writer()
+	go p.reader()
+	return p
+}
+
+func (p *peer) writer() {
+	for f := range p.out {
+		if _, err := p.conn.Write(f); err != nil {
+			return
+		}
+	}
+}
+
+func frame(hdr [10]byte, body []byte) []byte {
+	f := make([]byte, 4, 14+len(body))
+	binary.BigEndian.PutUint32(f, uint32(10+len(body)))
+	f = append(f, hdr[:]...)
+	return append(f, body...)
+}
+
+func (p *peer) reader() {
+	defer close(p.done)
+	for {
+		var lb [4]byte
+		if _, err := io.ReadFull(p.conn, lb[:]); err != nil {
+			return
+		}
+		n := binary.BigEndian.Uint32(lb[:])
+		buf := make([]byte, n)
+		if _, err := io.ReadFull(p.conn, buf); err != nil {
+			return
+		}
+		if n < 10 {
+			return
+		}
+		var hdr [10]byte
+		copy(hdr[:], buf[:10])
+		switch hdr[5] {
+		case 0: // data
+			p.mu.Lock()
+			p.data = append(p.data, buf)
+			p.mu.Unlock()
+			if hdr[2]&0x80 != 0 {
+				r := hdr
+				r[2] &= 0x7F
+				r[3]++
+				p.out <- frame(r, nil)
+			}
+		case 1: // select.req
+			r := hdr
+			r[2], r[3], r[5] = 0, 0, 2
+			p.out <- frame(r, nil)
+		case 5: // linktest.req
+			r := hdr
+			r[5] = 6
+			p.out <- frame(r, nil)
+		case 9: // separate.req
+			return
+		}
+	}
+}
+
+// nonMarker returns how many data frames other than the marker the peer has seen.
+func (p *peer) nonMarker() int {
+	p.mu.Lock()
+	defer p.mu.Unlock()
+	n := 0
+	for _, d := range p.data {
+		if !(d[2]&0x7F == markerStream && d[3] == markerFunction) {
+			n++
+		}
+	}
+	return n
+}
+
+func isErr(err, target error) bool { return errors.Is(err, target) }
+
+func sendClass(err error) string {
+	switch {
+	case err == nil:
+		return "ok"
+	case isErr(err, hsms.ErrInvalidStreamCode):
+		return "stream"
+	case isErr(err, hsms.ErrInvalidRspMsg):
+		return "rsp"
+	default:
+		return "item"
+	}
+}
+
+// liveSends: the four item-taking send calls of a live, selected HSMS-SS connection, with errored
+// and error-free items. The peer must see NOTHING for a refused call and exactly one frame
+// otherwise.
+func liveSends(n int) {
+	if n < 40 {
+		n = 40
+	}
+	a, b := net.Pipe()
+	p := newPeer(b)
+	var dialOnce sync.Once
+	dial := func(ctx context.Context, _, _ string) (net.Conn, error) {
+		var c net.Conn
+		dialOnce.Do(func() { c = a })
+		if c != nil {
+			return c, nil
+		}
+		<-ctx.Done()
+		return nil, ctx.Err()
+	}
+	cfg, err := hsmsss.NewConfig("pipe", 5000, hsmsss.WithActive(), hsmsss.WithDialer(dial),
+		hsmsss.WithConnectionOption(hsms.WithLogger(nopLogger{})),
+		hsmsss.WithConnectionOption(hsms.WithT3(5*time.Second)),
+		hsmsss.WithConnectionOption(hsms.WithCloseTimeout(3*time.Second)))
+	if err != nil {
+		c.Note("live: config error " + err.Error())
+		return
+	}
+	conn, err := hsmsss.New(cfg)
+	if err != nil {
+		c.Note("live: New error " + err.Error())
+		return
+	}
+	ctx, cancel := context.WithTimeout(context.Background(), 60*time.Second)
+	defer cancel()
+	if err := conn.Open(ctx, hsms.OpenWaitSelected); err != nil {
+		c.Fail("live: Open failed: "+err.Error(), "S open")
+		return
+	}
+	defer func() {
+		_ = conn.Close()
+		_ = a.Close()
+		_ = b.Close()
+	}()
+
+	marker := func() bool {
+		_, err := conn.SendDataMessage(ctx, markerStream, markerFunction, true, nil)
+		return err == nil
+	}
+	if !marker() {
+		c.Fail("live: marker round trip failed", "S marker")
+		return
+	}
+	primary, _ := hsms.NewDataMessage(5, 7, true, 1, [4]byte{0, 0, 9, 9}, secs2.A("primary"))
+
+	r := c.Rng
+	calls := []string{"data", "async", "secs2", "reply"}
+	for i := 0; i < n; i++ {
+		var e *expr
+		var it secs2.Item
+		wantErr := i%2 == 0
+		for tries := 0; ; tries++ {
+			e = randTree(2)
+			res := e.build()
+			if res.panicked {
+				continue
+			}
+			it = res.item
+			if errorClass(it) == wantErr || tries > 200 {
+				break
+			}
+		}
+		call := calls[r.Intn(len(calls))]
+		stream := byte(r.Intn(128))
+		if r.Intn(12) == 0 {
+			stream = byte(128 + r.Intn(128))
+		}
+		fn := byte(r.Intn(256))
+		w := r.Intn(3) == 0
+		if call == "reply" {
+			stream, fn, w = primary.Stream(), primary.Function(), false
+		}
+		before := p.nonMarker()
+		line := fmt.Sprintf("S %s %d %d %s %s | ", call, stream, fn, vh.B01(w), e.syntax())
+		var cerr error
+		func() {
+			defer func() {
+				if rec := recover(); rec != nil {
+					c.Fail(fmt.Sprintf("send call panicked: %v", rec), line)
+					cerr = fmt.Errorf("panic")
+				}
+			}()
+			switch call {
+			case "data":
+				_, cerr = conn.SendDataMessage(ctx, stream, fn, w, it)
+			case "async":
+				cerr = conn.SendDataMessageAsync(ctx, stream, fn, w, it)
+			case "secs2":
+				_, cerr = conn.SendSECS2Message(ctx, secs2.NewMessage(stream, fn, w, it))
+			case "reply":
+				cerr = conn.ReplyDataMessage(ctx, primary, it)
+			}
+		}()
+		cls := sendClass(cerr)
+		want := 0
+		if cerr == nil {
+			want = 1
+			deadline := time.Now().Add(3 * time.Second)
+			for p.nonMarker() < before+1 && time.Now().Before(deadline) {
+				time.Sleep(200 * time.Microsecond)
+			}
+		}
+		// flush: a synchronous round trip behind the call, then a short settle for the async queue
+		if !marker() {
+			c.Fail("live: marker round trip failed after a send call", line)
+			return
+		}
+		if cerr != nil && (call == "async" || call == "reply") {
+			time.Sleep(300 * time.Microsecond)
+		}
+		got := p.nonMarker() - before
+		if errorClass(it) && cerr == nil {
+			c.Fail("a send call accepted an item whose Error() is non-nil", line)
+		}
+		if errorClass(it) && got != 0 {
+			c.Fail("the peer received a frame for an item whose Error() is non-nil", line)
+		}
+		if got != want {
+			c.Fail(fmt.Sprintf("peer saw %d frames for this call, want %d", got, want), line)
+		}
+		line += fmt.Sprintf("%s %d", cls, got)
+		c.Case(line, line, true)
+		c.Count("live/" + call + "/" + cls)
+	}
+	// final settle: nothing may trickle in after the last call
+	time.Sleep(20 * time.Millisecond)
+	total := p.nonMarker()
+	okCalls := 0
+	for k, v := range c.Sum.Histogram {
+		if len(k) > 5 && k[:5] == "live/" && k[len(k)-3:] == "/ok" {
+			okCalls += v
+		}
+	}
+	if total != okCalls {
+		c.Fail(fmt.Sprintf("peer saw %d data frames in total, %d calls succeeded", total, okCalls), "S total")
+	}
+}
